@@ -7,14 +7,19 @@
 (* abstract DN in several textual forms and all must behave alike.         *)
 (*                                                                         *)
 (* d = [leaf : [ok : BOOLEAN, dn : record], ids : Seq(identity)]           *)
-(* identity = [kind : "wildcard" | "x509" | "other", dn : record]          *)
+(* identity = [kind : "wildcard" | "x509" | "other" | BadKinds, dn : record] *)
+(* BadKinds: an x509.subject identity that cannot be interpreted.  A       *)
+(* validated policy cannot carry one; it can reach the verifier only       *)
+(* through a document changed after the verifier was built.                *)
 (***************************************************************************)
 EXTENDS Common
 
 SubsetDN(i, subj) == \A a \in DOMAIN i : a \in DOMAIN subj /\ subj[a] = i[a]
 
+BadKinds == {"badDupAttr", "badMissingC", "badGarbage", "badEmptyValue"}
 IdentityFact(d) ==
   IF \E k \in 1..Len(d.ids) : d.ids[k].kind = "wildcard" THEN "match"
+  ELSE IF \E k \in 1..Len(d.ids) : d.ids[k].kind \in BadKinds THEN "noMatch"   \* an identity that cannot be interpreted: fail closed
   ELSE IF ~\E k \in 1..Len(d.ids) : d.ids[k].kind = "x509" THEN "noMatch"      \* nothing notation can check natively
   ELSE IF ~d.leaf.ok THEN "noMatch"                                             \* uninterpretable subject: fail closed
   ELSE IF \E k \in 1..Len(d.ids) : d.ids[k].kind = "x509" /\ SubsetDN(d.ids[k].dn, d.leaf.dn)
